@@ -12,6 +12,7 @@ from __future__ import annotations
 import ast
 
 from ..model import AnalysisError, Program
+from ..paths import show as show_term
 from ..report import Report
 
 TRANSFORMING = ("__post_init__", "__init__", "__new__", "__setattr__", "__getattribute__", "__getattr__", "__set__", "__get__", "__setstate__", "__reduce__", "__copy__", "__deepcopy__", "__init_subclass__", "__eq__", "__bool__", "__len__", "__hash__")
@@ -84,15 +85,28 @@ def pure_property(rep: Report, rid: str, prog: Program, cls_qual: str, name: str
         rep.fail(rid, f"pure-property|{name}|missing", f"{cls_qual}.{name} is no longer a property", where=f"{ci.module.relpath}:{ci.node.lineno}", function=cls_qual)
         return
     bad = None
-    for n in prog._own_nodes(fn.node):
-        if isinstance(n, ast.Attribute) and isinstance(n.ctx, (ast.Store, ast.Del)):
-            bad = f"writes {ast.unparse(n)}"
-        if isinstance(n, ast.Call):
-            f = n.func
-            if not (isinstance(f, ast.Attribute) and f.attr in ("acquire", "release")):
-                bad = bad or f"calls {ast.unparse(f)}"
-    rets = [n for n in prog._own_nodes(fn.node) if isinstance(n, ast.Return) and n.value is not None]
-    if not rets or not all(isinstance(r.value, ast.Attribute) and r.value.attr == field for r in rets):
+    # on the getter's paths, with the undecorated body of a getter wrapped by a decorator of the library read through
+    from ..ctx import engine
+
+    eng = engine(prog)
+    inline0 = eng.inline
+    eng.inline = lambda f, inline0=inline0: bool(inline0 and inline0(f)) or f.qual.endswith(".__wrapped__")
+    try:
+        gpaths = eng.paths(fn, raises=lambda ev, cfg: (), key="pure-property")
+    finally:
+        eng.inline = inline0
+    selfn = fn.param_names()[0] if fn.param_names() else "self"
+    for gp in gpaths:
+        for e in gp.events:
+            if e.kind == "store":
+                bad = bad or f"writes {show_term(e.loc)}"
+            elif e.kind in ("call", "await") and not getattr(e, "pure", False):
+                f = e.node.ast.func if isinstance(e.node.ast, ast.Call) else None
+                if not (isinstance(f, ast.Attribute) and f.attr in ("acquire", "release")):
+                    bad = bad or f"calls {e.label}"
+        if gp.exit[0] == "return" and gp.exit[1] != ("attr", ("param", selfn), field):
+            bad = bad or f"does not simply return self.{field}"
+    if not any(gp.exit[0] == "return" for gp in gpaths):
         bad = bad or f"does not simply return self.{field}"
     if bad:
         rep.fail(rid, f"pure-property|{name}|{bad[:40]}", f"{cls_qual}.{name}: the getter {bad}; reading the breaker's state (which the policy layer does when it reports events) must not change it", where=fn.where(), function=fn.qual)
